@@ -43,17 +43,30 @@ build() {
   fi
 }
 
+build_cli() {
+  # the CLI binary under test, built from the current tree (with the same overlay, so that mutation runs see the mutant)
+  export VERIF_CLI_BIN="$ROOT/build/k8snetpolicy$TAG"
+  if ! go build -tags verif -overlay "$OVERLAY" -o "$VERIF_CLI_BIN" github.com/np-guard/netpol-analyzer/cmd/netpolicy 2>> "$ROOT/build/build$TAG.log"; then
+    cat "$ROOT/build/build$TAG.log" >&2
+    echo "HARNESS-ERROR: the CLI of the tree under test does not build" >&2
+    exit 2
+  fi
+}
+
 case "${1:-}" in
   setup)
     build
+    build_cli
     echo "setup ok"
     ;;
   replay)
     build
+    build_cli
     exec "$BIN" replay "$2"
     ;;
   C*)
     build
+    case "$1" in C03|C08|C12|C13|C18) build_cli ;; esac
     exec "$BIN" "$1" "${2:-${VERIF_TIER:-quick}}"
     ;;
   *)
